@@ -306,3 +306,34 @@ for cls in ('pmutt.reaction:ChemkinReaction', 'pmutt.omkm.reaction:SurfaceReacti
 # ---- the shared helpers this property's code goes through (keyword forwarding, compositions, per-mass R) ------------------
 from contracts import helpers
 helpers.install(P, 'kwargs', 'formula', 'per_mass')
+
+# ---- the molecularity option left to the code (del_m=None), both directions ------------------------------------------------------
+for rev in (False, True):
+    contract(RX + '.get_E_act', P, label='[kJ/mol,rev=%s,del_m=None]' % rev,
+             args=dict(self=rxn(), units=Const('kJ/mol'), T=T, rev=Const(rev), del_m=Const(None), P=PR), requires=['T > 0'],
+             ensures=[('same-direction-and-conditions',
+                       "result == self.get_EoRT_act(rev=rev, del_m=None, T=T, P=P) * const.R('kJ/mol/K') * T")],
+             cross_check=False)
+
+# ---- temperature arrays of any length and order (declared bounded: run natively on samples; never counted as proved) ----------
+LADDER = [4, 5, 8, 13, 40, 300]
+
+
+def plain(cls):
+    if cls == 'Nasa':
+        return New(NASA + 'Nasa', name=Const('A'), T_low=Real(50., 400.), T_mid=Real(500., 1500.), T_high=Real(2000., 6000.),
+                   a_low=RealVec(7, -50., 50.), a_high=RealVec(7, -50., 50.), phase=Const('S'), elements=Const(ELEMENTS))
+    return New(SHO + 'Shomate', name=Const('A'), T_low=Real(100., 300.), T_high=Real(2000., 6000.), a=RealVec(8, -50., 50.),
+               units=Const('J/mol/K'), phase=Const('S'), elements=Const(ELEMENTS))
+
+
+for cls, qual in (('Nasa', NASA + 'Nasa'), ('Shomate', SHO + 'Shomate')):
+    for g, dimless, has_T in (('H', 'HoRT', True), ('G', 'GoRT', True), ('S', 'SoR', False), ('Cp', 'CpoR', False)):
+        for units in ('kJ/mol', 'J/g'):
+            u = units + ('' if has_T else '/K')
+            contract(qual + '.get_' + g, P, label='array[%s],large' % u, shapes=dict(n=LADDER), native_only=True,
+                     args=lambda n, cls=cls, u=u: dict(self=plain(cls), units=Const(u), T=RealVec(n, 100., 3000.)),
+                     requires=['all(T[i] > 0 for i in range(len(T)))'] + (['0 < self.T_low', 'self.T_low < self.T_mid', 'self.T_mid < self.T_high'] if cls == 'Nasa' else []),
+                     ensures=[('each-entry-is-the-scalar-value-in-these-units',
+                               'all(at(result, i) == self.get_%s(T=T[i]) * %s%s for i in range(len(T)))'
+                               % (dimless, r_adj_expr(u + ('/K' if has_T else '')), ' * T[i]' if has_T else ''))])
